@@ -57,7 +57,7 @@ def run(ctx):
     r = tlc.model_check("MC_Metrics.tla", cfg, workers=8)
     design = [family.design_entry("MC_Metrics", "sessions", r, "exhaustive over event sequences: the registers of the Metrics machine equal a reference restarted at every "
                                   "beginCollect, across finished and aborted sessions", ["Isolated", "FreshAfterBegin"])]
-    cases = sessions_cases(ctx, 150 if ctx.quick else 1500)
+    cases = sessions_cases(ctx, 400 if ctx.quick else 2500)
     part = family.run_family(ctx, "C15", cases, "harness.exec_metrics", "MetricsTrace.tla", "MetricsTrace.cfg",
                              op_of=lambda c, lg, st: "sessions", where_of=lambda c, lg, st: "shapeless-output" if c.get("shapeless") else "declared-shape",
                              beh_of=lambda c: {"sessions": c["sessions"]})
